@@ -39,6 +39,11 @@ def gen_plan(rng, tier: str, idx: int) -> dict:
         p = 2 if kern.startswith("seq") else rng.choice([1, 2])
         if kern == "seq_rw_hmc_mh":
             p = 3
+        if kern == "iwls_user":
+            # the user information depends on the kernel's own position; give the chain enough
+            # transitions for a wrong backward density to move the law beyond the thresholds
+            p, epochs = 1, [[4, 10]]
+            fam = rng.choice(["gaussian", "logistic"])
         return {"model": "regression", "family": fam, "kernel": kern, "p": p, "n": rng.randint(4, 10), "tau": rng.choice([0.7, 1.0, 1.5]),
                 "sigma": rng.choice([0.7, 1.0]), "data_seed": rng.randrange(10**6), "liesel": kern in ("rw", "iwls", "nuts", "hmc", "seq_iwls_rw") and rng.random() < 0.5,
                 "step": rng.choice([0.4, 0.8, 1.2]), "chains": C, "epochs": epochs, "seed": rng.randrange(2**31)}
@@ -174,7 +179,9 @@ def reg_kernels(plan, M, iface, liesel):
         "rw": lambda keys: gs.RWKernel(keys, initial_step_size=st),
         "mh_asym": mh_asym, "mh_indep": mh_indep,
         "iwls": lambda keys: gs.IWLSKernel(keys, initial_step_size=min(1.0, s + 0.2)),
-        "iwls_user": lambda keys: gs.IWLSKernel(keys, chol_info_fn=lambda ms: cholA, initial_step_size=min(1.0, s + 0.2)),
+        # user-supplied information that depends on the kernel's own position
+        "iwls_user": lambda keys: gs.IWLSKernel(
+            keys, chol_info_fn=lambda ms: cholA * jnp.exp(0.9 * jnp.tanh(jnp.atleast_1d(val(ms, keys[0]))[0])), initial_step_size=1.0),
         "hmc": lambda keys: gs.HMCKernel(keys, initial_step_size=st * 0.7, num_integration_steps=3),
         "nuts": lambda keys: gs.NUTSKernel(keys, initial_step_size=st * 0.7, max_treedepth=3),
         "gibbs_conj": gibbs_conj,
